@@ -160,6 +160,7 @@ func (s *IndexedState) Load(ctx *Context) error {
 		Log(ERROR, ctx, "IndexedState.Load", "location", s.Name, "error", err, "when", "Store.Load")
 		return err
 	}
+	var expired []string
 	for _, pair := range pairs {
 		id := string(pair.K)
 		bs := pair.V
@@ -171,6 +172,7 @@ func (s *IndexedState) Load(ctx *Context) error {
 		if err != nil {
 			_, is := err.(*ExpiredError)
 			if is {
+				expired = append(expired, id)
 				// We have an expired fact in storage.
 				// Need to delete it and then skip it here.
 				// since no cache has been created, just remove it directly from the store
@@ -182,6 +184,16 @@ func (s *IndexedState) Load(ctx *Context) error {
 				Log(ERROR, ctx, "IndexedState.Load", "location", s.Name, "error", err, "when", "Store.Add", "pair", pair)
 				return err
 			}
+		}
+	}
+
+	// What depended on an expired fact (its properties, like a rule's
+	// 'disabled' flag, and other 'deleteWith' dependents) goes with
+	// it, as it does when a reader finds the fact expired.
+	for _, id := range expired {
+		if err := s.deleteDependencies(ctx, id); err != nil {
+			Log(ERROR, ctx, "IndexedState.Load", "location", s.Name, "error", err, "when", "deleteDependencies", "id", id)
+			return err
 		}
 	}
 
